@@ -167,7 +167,7 @@ class World:
 
     def health_fault(self, sock, kind):
         ctx = self.ctx()
-        self.health_log.append((self.seq, sock.target, kind, ctx.id, sock.id))
+        self.health_log.append((self.seq, sock.target, kind, ctx.id, sock.id, self.clock.now))
         ctx.fired.append(("health", 0, kind, sock.id))
         self.stats["fault:health-" + kind] += 1
         if sock.conn is not None:
@@ -438,7 +438,7 @@ class SimSocket:
             return None
         if h in ("blackhole", "connect_timeout"):
             return None   # bytes vanish
-        w.ok_log.append((w.seq, self.target, ctx.id, self.id))
+        w.ok_log.append((w.seq, self.target, ctx.id, self.id, w.clock.now))
         node.feed(conn, bytes(data), ctx.id)
         return None
 
